@@ -11,6 +11,8 @@ C12 driver: one JSON request per line on stdin, one JSON answer per line on stdo
   {"op":"spec","expr":E,"leaves":[[text,ty],..],"obs":{"text":..,"declTy":..,"incs":[..]}|null}
       -> {"holds":b,"why":s}
   {"op":"placement","expr":E,"leaves":[[text,ty],..],"obs":{"code":text,"incs":[..]}|null} -> {"holds":b,"why":s}   (PlacementSpec)
+  {"op":"alive","expr":E,"leaves":[[text,ty],..],"members":[name..],"lines":[{"k":"open"|"close"|"for"|"stmt","t":text,"d":[declared..],"u":[used..]}..]}
+      -> {"holds":b,"why":s}   (AliveSpec: the line that holds the call mentions only variables alive there)
   {"op":"package","expr":E,"backend":"atlas"|"cms_aod"|"cms_miniaod","injects":[{"header_includes":[..],"body_includes":[..]}..],"hdrCalls":b}
       -> {"files":[{"name":..,"incs":[..],"calls":b}..],"holds":b} | {"err":class}     (model: tr + packageFiles)
   {"op":"pkgspec","files":[{"name":..,"incs":[..],"calls":b}..]} -> {"holds":b,"culprit":name|null}   (PackageSpec on observed files)
@@ -165,6 +167,23 @@ def handle (line : String) : String :=
           | .ok o => do pure (some ((← (← o.getObjVal? "code").getStr?), (← strList (← o.getObjVal? "incs"))))
           | .error _ => pure none
         let (h, why) := PlacementSpec cfg Gen.readmeFunctions leaves e obs
+        pure (Json.mkObj [("holds", h), ("why", why)])
+      else if op == "alive" then
+        let e ← parseExpr (← j.getObjVal? "expr")
+        let lv ← (← j.getObjVal? "leaves").getArr?
+        let leaves ← lv.toList.mapM fun p => do
+          let a ← p.getArr?
+          match a.toList with
+          | [t, ty] => pure ((← t.getStr?), (← ty.getStr?))
+          | _ => throw "leaf must be [text, type]"
+        let members ← strList (← j.getObjVal? "members")
+        let ls ← (← j.getObjVal? "lines").getArr?
+        let lines ← ls.toList.mapM fun l => do
+          let k ← (← l.getObjVal? "k").getStr?
+          let kind : LineKind := if k == "open" then .openB else if k == "close" then .closeB else if k == "for" then .forL else .stmt
+          pure ({ kind, text := ← (← l.getObjVal? "t").getStr?, decls := ← strList (← l.getObjVal? "d"),
+                  uses := ← strList (← l.getObjVal? "u") } : CodeLine)
+        let (h, why) := AliveSpec cfg Gen.readmeFunctions leaves e members lines
         pure (Json.mkObj [("holds", h), ("why", why)])
       else if op == "package" then
         let e ← parseExpr (← j.getObjVal? "expr")
